@@ -25,7 +25,7 @@ def main():
     db = ContractDB(os.path.join(here, "contracts"))
     if not targets:
         targets = list(db.contracts)
-    ver = Verifier(fe, db)
+    ver = Verifier(fe, db, int(os.environ.get("PYVC_TIMEOUT_MS", "10000")))
     for t in targets:
         t0 = time.time()
         rep = ver.verify_function(t)
@@ -34,6 +34,10 @@ def main():
         for ob in rep.obligations:
             res[ob.result] = res.get(ob.result, 0) + 1
         print(f"{t}: paths={rep.paths} obligations={len(rep.obligations)} {res} undecided={rep.undecided} {time.time()-t0:.2f}s")
+        if os.environ.get("PYVC_TIMES"):
+            for ob in rep.obligations:
+                if ob.seconds > 2:
+                    print(f"    {ob.seconds:6.1f}s {ob.result} {ob.backend} {ob.id}")
         for ob in rep.obligations:
             if ob.result != "discharged":
                 print("   ", ob.result, ob.id, "|", ob.clause[:100], "|", ob.note)
